@@ -29,6 +29,12 @@ namespace sim
         // points (0 = off). The runtime translation units are then compiled with -finstrument-functions and every function
         // entry counts down; at zero the scheduler may switch threads *inside* engine code, between two interception points.
         int instr_interval{0};
+        // ... and targeted pre-emption: every call site whose address hashes (with the seed) to 0 modulo instr_target_mod is
+        // a pre-emption point on its first entries - a seeded set of call sites per run, so that
+        // a narrow window (two calls wide) inside one particular function is hit in some runs with certainty rather than
+        // in every run with a tiny probability. Addresses are stable: the harness runs with ASLR off.
+        int instr_target_mod{0};
+        int instr_target_cap{20000};      // per run; each selected call site is a pre-emption point on its first 64 entries
         std::vector<long long> tape;
         bool use_tape{false};
         bool record_tape{false};
@@ -51,7 +57,7 @@ namespace sim
     bool in_sim();
     int self_id();
     void yield();
-    void instr_point();
+    void instr_point(void *fn, void *site);
     void sleep_us(long long d);
     long long now_us();
     long long seq();                                                   // global event sequence number (scheduler steps)
@@ -62,4 +68,7 @@ namespace sim
     // the running thread is inside a region where being the last runnable thread means "nobody can notify": used by the
     // lost wake-up oracle; set by the harness around engine waits is not needed - the scheduler logs forced timeouts itself.
     void set_log(bool on);
+    // harness code that touches state shared between simulated threads (the log buffer ...) runs with pre-emption at
+    // instrumented function entries switched off: only the engine's own windows are meant to be opened
+    struct NoPreempt { NoPreempt(); ~NoPreempt(); };
 }  // namespace sim
